@@ -2,6 +2,8 @@
 
 from __future__ import annotations
 
+import copy
+
 from ..core import Result, use_repo
 
 use_repo()
@@ -53,6 +55,34 @@ def oracle(case, obs, res: Result):
 check_case = e1common.make_check(oracle)
 
 
+def monitor_left_to_close_run_cases():
+    """A run closed while a signal is still monitored (close_run removes the callback itself) x the n-th
+    subscribe / clear_sub of that signal failing once, alone and after a pause+resume: a close_run that fails must
+    still leave the run closable by the plan's or the engine's clean-up."""
+    from ..engine.planlang import M, SEQ
+
+    def plan(guard):
+        body = SEQ(
+            M("open_run"),
+            M("checkpoint"),
+            M("monitor", "s1", name="s1_monitor"),
+            corpus.point(("d1",), "m1", 0.5),
+            M("close_run"),
+            M("checkpoint"),
+        )
+        if guard == "swallow":
+            return SEQ(["try", body, [["Exception", "swallow", M("null", None, "handler")]], None], M("null", None, "after"))
+        return body
+
+    for guard in ("none", "swallow"):
+        for op, nth in (("clear_sub", 1), ("clear_sub", 2), ("subscribe", 1), ("subscribe", 2)):
+            for pause_at in (None, 12, 30):
+                c = {"name": f"monitor_left_to_close_run:{guard}", "plan": plan(guard), "devices": copy.deepcopy(corpus.DEV_A), "probe": True}
+                c["faults"] = [{"dev": "s1", "op": op, "n": nth, "kind": "raise"}]
+                c["stages"] = [{"do": "call"}] if pause_at is None else [{"do": "call", "inj": [{"at": pause_at, "do": "pause"}]}, {"do": "resume"}]
+                yield c
+
+
 def run(ctx):
     names = corpus.corpus_names(ctx.tier)
     step = 1
@@ -61,6 +91,7 @@ def run(ctx):
         # keep every k for pause/abort families but thin decisions: deterministic subsample by index
         cases = [c for i, c in enumerate(cases) if i % 3 == ctx.seed % 3]
     cases += list(corpus.single_fault_cases(names, kinds=("raise", "status_fail")))
+    cases += list(monitor_left_to_close_run_cases())
     ctx.sweep(cases, check_case)
     ctx.extra["sweep_cases"] = len(cases)
     e1common.generated(ctx, check_case, n=ctx.pick(600, 20000), profile="general")
